@@ -29,6 +29,7 @@ class Unsupported(Exception):
 # ------------------------------------------------------------------ tokenizer
 TOK_RE = re.compile(r"""
     (?P<ws>\s+|//[^\n]*)
+  | (?P<str>"(?:[^"\\]|\\.)*")
   | (?P<num>0x[0-9a-fA-F_]+(?:_?[ui](?:8|16|32|64|128|size))?|\d[\d_]*(?:_?[ui](?:8|16|32|64|128|size))?)
   | (?P<id>[A-Za-z_][A-Za-z0-9_]*!?)
   | (?P<op><<=|>>=|\.\.=|<<|>>|<=|>=|==|!=|&&|\|\||\+=|-=|\*=|/=|%=|\|=|&=|\^=|->|=>|::|\.\.|[-+*/%&|^!<>=.,;:(){}\[\]#'@?])
@@ -345,15 +346,26 @@ class P:
             if len(xs) == 1 and not trailing:
                 return xs[0]
             return ("tuple", xs)
+        if k == "str":
+            self.next()
+            return ("str", v)
         if v == "[":
             self.next()
             xs = []
             while not self.at("]"):
                 xs.append(self.expr())
+                if self.accept(";"):
+                    n = self.expr()
+                    self.eat("]")
+                    return ("arrayrep", xs[0], n)
                 if not self.accept(","):
                     break
             self.eat("]")
             return ("array", xs)
+        if v == "Self" and self.peek(1)[1] == "{" and self.peek(2)[1] == "limbs" and self.peek(3)[1] == "}":
+            for _ in range(4):
+                self.next()
+            return ("structlit", ("var", "limbs"))
         if v == "if":
             self.next()
             c = self.expr()
@@ -522,14 +534,21 @@ class Tr:
             if e[2] in ("0", "1") and isinstance(t, tuple) and t[0] == "tuple" and len(t[1]) == 2:
                 return b, "(%s %s)" % ("fst" if e[2] == "0" else "snd", paren(a)), t[1][int(e[2])]
             raise Unsupported("field ." + e[2])
+        if k == "arrayrep":
+            b, a, t = self.ex(f, e[1], env, "u64")
+            bn, an, _ = self.ex(f, e[2], env, "usize")
+            return b + bn, "(repeat %s (Z.to_nat %s))" % (paren(a), paren(an)), ("slice", "u64")
+        if k == "structlit":
+            b, a, t = self.ex(f, e[1], env)
+            return b, a, "uint"
         if k == "index":
             b, a, t = self.ex(f, e[1], env)
-            if not (isinstance(t, tuple) and t[0] == "slice"):
+            if not (isinstance(t, tuple) and t[0] in ("slice", "arr")):
                 raise Unsupported("index into a non-slice")
             bi, ai, _ = self.ex(f, e[2], env, "usize")
             f.impure = True
             v = f.fresh()
-            return b + bi + ["do %s <- idx %s %s ;" % (v, paren(a), paren(ai))], v, t[1]
+            return b + bi + ["do %s <- idx %s %s ;" % (v, paren(a), paren(ai))], v, "u64"
         if k == "macro":
             raise Unsupported("macro in expression: " + e[1])
         if k == "if":
@@ -702,6 +721,9 @@ class Tr:
         def fin(env2):
             if blk[2] is None:
                 raise Unsupported("block without value")
+            if blk[2][0] == "macro" and blk[2][1] in ("panic", "unreachable", "todo"):
+                f.impure = True
+                return "Panic"
             b, a, t = self.ex(f, blk[2], env2, want)
             res["t"] = t
             return " ".join(b) + " Val %s" % a if b else "Val %s" % a
@@ -729,9 +751,11 @@ class Tr:
             if WIDTH.get(t, 999) <= WIDTH[to]:
                 return b, a, to
             raise Unsupported("narrowing from()")
-        if fe[0] == "path" and fe[1][0] in ("u128", "Self") and len(fe[1]) == 2:
+        if fe[0] == "path" and len(fe[1]) == 2 and (fe[1][0] == "u128" or (fe[1][0] == "Self" and f.selfty == "u128")):
             name = "dw_" + fe[1][1]
         name = self.alias.get(name, name)
+        if name.startswith("Self::") and f.selfty == "uint" and ("U." + name[6:]) in self.sigs:
+            return self.apply(f, "U." + name[6:], args, env)
         if name in ("crate::algorithms::cmp", "algorithms::cmp"):
             # slice comparison: NOT translated; Model/Add.v limbs_cmp (tie: C15 / C04 correspondence)
             b1, a1, _ = self.ex(f, args[0], env)
@@ -1003,7 +1027,9 @@ class Tr:
                         raise Unsupported("assignment target")
                     bi, ai, _ = self.ex(f, t[2], env, "usize")
                     nv = f.fresh()
-                    return nv, "u64", bi + ["let %s := upd %s %s %s in" % (root[1], env[root[1]][0], paren(ai), nv)]
+                    f.impure = True      # an index out of bounds panics
+                    return nv, "u64", bi + ["do _ <- idx %s %s ; let %s := upd %s %s %s in" % (
+                        env[root[1]][0], paren(ai), root[1], env[root[1]][0], paren(ai), nv)]
                 raise Unsupported("assignment target")
             if tgt[0] in ("var", "index"):
                 nm, ty, post = target(tgt)
@@ -1024,6 +1050,10 @@ class Tr:
                     b, a, _ = self.ex(f, e[2][0], env, "bool")
                     f.impure = True
                     return "%s if negb %s then DebugPanic else\n  %s" % (" ".join(b), paren(a), rest(env))
+                if e[1] == "assert":
+                    b, a, _ = self.ex(f, e[2][0], env, "bool")
+                    f.impure = True
+                    return "%s if negb %s then Panic else\n  %s" % (" ".join(b), paren(a), rest(env))
                 if e[1] == "assume":
                     b, a, _ = self.ex(f, e[2][0], env, "bool")
                     f.impure = True
@@ -1051,10 +1081,14 @@ class Tr:
                 for v in vs:
                     if v not in env:
                         raise Unsupported("assignment to undeclared " + v)
-                tup = "(" + ", ".join(env[v][0] if False else v for v in vs) + ")" if len(vs) != 1 else vs[0]
+                tup = "(" + ", ".join(v for v in vs) + ")" if len(vs) != 1 else vs[0]
                 cur = "(" + ", ".join(env[v][0] for v in vs) + ")" if len(vs) != 1 else env[vs[0]][0]
+                if not vs:
+                    tup, cur = "_", "tt"
 
                 def endb(env2):
+                    if not vs:
+                        return "Val tt"
                     return "Val " + ("(" + ", ".join(env2[v][0] for v in vs) + ")" if len(vs) != 1 else env2[vs[0]][0])
                 s1 = self.stmts(f, th[1], 0, dict(env), endb, retty)
                 s2 = self.stmts(f, el[1], 0, dict(env), endb, retty) if el is not None else "Val " + cur
@@ -1065,8 +1099,8 @@ class Tr:
                 for v in vs:
                     env[v] = (v, env[v][1])
                 w = f.fresh()
-                if len(vs) == 1:
-                    return "%s do %s <- (if %s then (%s) else (%s)) ;\n  %s" % (" ".join(bc), vs[0], ac, s1, s2, rest(env))
+                if len(vs) <= 1:
+                    return "%s do %s <- (if %s then (%s) else (%s)) ;\n  %s" % (" ".join(bc), tup, ac, s1, s2, rest(env))
                 return "%s do %s <- (if %s then (%s) else (%s)) ;\n  let '%s := %s in\n  %s" % (
                     " ".join(bc), w, ac, s1, s2, tup, w, rest(env))
             if e[0] == "while":
@@ -1137,7 +1171,7 @@ class Tr:
                 env[pn] = (pn, pt)
                 ptys.append(pt)
             binders.append("(%s : %s)" % (pn, "bool" if pt == "bool" else
-                                          "list Z" if (pt == "uint" or (isinstance(pt, tuple) and pt[0] == "slice")) else "Z"))
+                                          "list Z" if (pt == "uint" or (isinstance(pt, tuple) and pt[0] in ("slice", "arr"))) else "Z"))
 
         def fin(env2):
             if body[2] is None:
@@ -1222,6 +1256,12 @@ TARGETS = [
     ("src/algorithms/div/small.rs", None, "div_3x2_mg10", "div_3x2_mg10", "g_div_3x2_mg10", None),
     # inherent methods of Uint<BITS, LIMBS>: generated with leading (BITS LIMBS : Z) parameters
     ("src/lib.rs", UINT_IMPL, "masked", "U.masked", "g_masked", "uint"),
+    ("src/lib.rs", UINT_IMPL, "from_limbs", "U.from_limbs", "g_from_limbs", "uint"),
+    ("src/lib.rs", UINT_IMPL, "from_limbs_unmasked", "U.from_limbs_unmasked", "g_from_limbs_unmasked", "uint"),
+    ("src/lib.rs", UINT_IMPL, "const:ZERO", "U.ZERO", "g_ZERO", "uint"),
+    ("src/lib.rs", UINT_IMPL, "const:MAX", "U.MAX", "g_MAX", "uint"),
+    ("src/from.rs", "const fn const_from_u64", "const_from_u64", "U.const_from_u64", "g_const_from_u64", "uint"),
+    ("src/lib.rs", UINT_IMPL, "const:ONE", "U.ONE", "g_ONE", "uint"),
     ("src/lib.rs", UINT_IMPL, "apply_mask", "U.apply_mask", "g_apply_mask", "uint"),
     ("src/mul.rs", UINT_IMPL, "overflowing_mul", "U.overflowing_mul", "g_overflowing_mul", "uint"),
     ("src/mul.rs", UINT_IMPL, "checked_mul", "U.checked_mul", "g_checked_mul", "uint"),
@@ -1285,7 +1325,18 @@ def translate(repo):
     for rel, marker, fname, cname, gname, selfty in TARGETS:
         try:
             txt = open(os.path.join(repo, rel)).read()
-            src = fn_text(txt, fname, marker)
+            if fname.startswith("const:"):
+                # an associated const: its initialiser is translated as a nullary function
+                m = re.search(r"\bconst\s+%s\s*:\s*Self\s*=" % fname[6:], txt)
+                if not m:
+                    raise Unsupported("const %s not found" % fname[6:])
+                j, depth = m.end(), 0
+                while not (txt[j] == ";" and depth == 0):
+                    depth += (txt[j] in "([{") - (txt[j] in ")]}")
+                    j += 1
+                src = "fn %s() -> Self { %s }" % (fname[6:], txt[m.end():j])
+            else:
+                src = fn_text(txt, fname, marker)
             n0 = len(tr.out)
             try:
                 pure = tr.function(cname, gname, src, selfty)
